@@ -29,6 +29,14 @@ EDGE = {
            bi('ㄱㄹ', bi('ㄹ'), fundef(bi('ㄱㅅ', arg(0))))],
     'lit': [raw('ㄷ'), raw('ㅈㅈ'), raw('ㅂㄱ')],    # bare literals naming built-ins (as arguments they are integers)
 }
+# lists whose elements are of *different* kinds (str + bytes, int + str, list + nil, …): element-wise operations must
+# reject them with the language's type exception wherever they require one kind
+import random as _random
+_hr = _random.Random(20260929)
+_elem = [k for k in EDGE if k not in ('io', 'lit')]
+EDGE['hlist'] = [bi('ㅁㄹ', *[_hr.choice(EDGE[_hr.choice(_elem)]) for _ in range(_hr.randint(2, 3))]) for _ in range(60)] + \
+                [bi('ㅁㄹ', str_lit("0"), bytes_lit(b"1")), bi('ㅁㄹ', bytes_lit(b"0"), str_lit("1")), bi('ㅁㄹ', lit(1), str_lit("1")),
+                 bi('ㅁㄹ', str_lit("a"), gen.NIL), bi('ㅁㄹ', bi('ㅁㄹ', lit(1)), lit(2)), bi('ㅁㄹ', gen.BOOL_T, lit(1))]
 KINDS = list(EDGE)
 CALLEES = [raw(n) for n in gen.BUILTIN_NAMES] + [raw(m) for m in gen.MODULE_FNS] + [
     raw("(ㅂ ㅅ ㄹㄱ ㅂㅎㄹ)"), raw("(ㅂ ㅅ ㅅㄴ ㅂㅎㄹ)"), raw("(ㅂ ㅅ ㄴㅅ ㅂㅎㄹ)"), raw("(ㅂ ㅅ ㄱㅅ ㅂㅎㄹ)"), raw("(ㅂ ㅅ ㅅㄱ ㅂㅎㄹ)"),
@@ -119,6 +127,16 @@ def cases(rng, tier):
             yield Case(program=render(bi(name, x, y)), tag='num-pair')
     for x, y, z in [(rng.choice(EDGE['int']), rng.choice(EDGE['int']), rng.choice(EDGE['int'])) for _ in range(40 if tier == 'quick' else 2000)]:
         yield Case(program=render(bi('ㅅ', x, y, z)), tag='powmod')
+    # (3a) every callee on a mixed-kind list (alone, with a separator / function / second list)
+    for f in CALLEES:
+        for _ in range(3 if tier == 'quick' else 30):
+            h = rng.choice(EDGE['hlist'])
+            extra = rng.choice([[], [rng.choice(EDGE['str'])], [rng.choice(EDGE['bytes'])], [rng.choice(EDGE['fn'])], [rng.choice(EDGE['hlist'])], [lit(0)]])
+            for args in ([h] + extra, extra + [h]):
+                yield Case(program=render(call(f, *args)), stdin="in\n", tag='hetero-list')
+        for h in EDGE['hlist'][-6:]:             # the hand-picked mixtures, every time
+            yield Case(program=render(call(f, h)), stdin="in\n", tag='hetero-list')
+            yield Case(program=render(call(f, h, rng.choice([str_lit(","), bytes_lit(b","), lit(0)]))), stdin="in\n", tag='hetero-list')
     # (3b) equality / keying over every pair of edge values of every kind (ㄴ asks both for their structural key)
     allv = [v for k in KINDS for v in EDGE[k]]
     prs = list(itertools.product(allv, allv))
@@ -232,7 +250,7 @@ SPEC = {
     'cases': cases,
     'relevant': relevant,
     'stream': 'C04 call-shape matrix',
-    'rule': 'matrix: every built-in and built-in module function × arity 0–4 × argument kinds (13 kinds incl. bare literals) '
+    'rule': 'matrix: every built-in and built-in module function × arity 0–4 × argument kinds (14 kinds incl. bare literals and mixed-kind lists) '
             '× edge values (0, ±1, 2^63, ±10^400, ±0.0, ±inf, nan, 1e308, 5e-324, complex, empty / astral / numeric / '
             'malformed strings, invalid UTF-8, nested / failing lists, dicts, closures, pipes, codecs, exceptions, I/O '
             'actions); every kind of value as callee; numeric pairs for the binary operators; numeric strings × bases; '
